@@ -405,7 +405,8 @@ pub fn deep_rejection(ctx: &Ctx, rep: &mut Report) {
 }
 
 pub fn totality(ctx: &Ctx, rep: &mut Report) {
-    let mus: Vec<f64> = vec![0.0, 0.3, -0.3, 0.5, -0.5, 1e-12, 0.999999999, -91.90471153063714, 12345.678, -20000.3, 7.0, -1.0];
+    // (incl. centres a hair below an integer: the split mu = floor(mu) + r then rounds r up to 1.0)
+    let mus: Vec<f64> = vec![0.0, 0.3, -0.3, 0.5, -0.5, 1e-12, 0.999999999, -91.90471153063714, 12345.678, -20000.3, 7.0, -1.0, -5e-324, -1e-17, -5.5e-17, -1.2e-16, 0.9999999999999999, -1.0000000000000002, 4.999999999999999, -0.0];
     let sigmas: Vec<(f64, f64)> = vec![
         (SIGMIN_512, SIGMIN_512),
         (SIGMIN_1024, SIGMIN_1024),
@@ -544,7 +545,7 @@ fn spec_sampler_on_log(mu: f64, sigma: f64, sigmin: f64, log: &[u8]) -> Option<i
 }
 
 pub fn distribution(ctx: &Ctx, rep: &mut Report) {
-    let mus: Vec<f64> = vec![0.0, 0.5, -0.5, 0.25, 1e-9, -91.90471153063714, 12345.678, -20000.3, 0.999999];
+    let mus: Vec<f64> = vec![0.0, 0.5, -0.5, 0.25, 1e-9, -91.90471153063714, 12345.678, -20000.3, 0.999999, -5e-324, -1e-17, -4e-17, 0.9999999999999999, 6.999999999999999];
     let sigmas: Vec<(f64, f64)> = vec![(SIGMIN_512, SIGMIN_512), (SIGMIN_1024, SIGMIN_1024), (1.5, SIGMIN_512), (1.7, SIGMIN_1024), (1.8205, SIGMIN_512)];
     let n = ctx.sz(1_500_000, 100_000_000);
     let jobs = mus.len() * sigmas.len();
